@@ -177,9 +177,11 @@ class Ctx:
     def bytes(self, name, length=None, min_len=0, max_len=None):
         v = self.model.get(name)
         b = bytes.fromhex(v["hex"]) if isinstance(v, dict) and "hex" in v else b""
+        if length is not None and length > 200000:
+            raise ReplayPrecondition("byte string of length %d is too long to build natively" % length)
         if self.fuzz is not None and self.fuzz.random() < 0.6:
             n = length if length is not None else self.fuzz.randint(min_len, min(max_len if max_len is not None else min_len + 64, min_len + 64))
-            b = bytes(self.fuzz.getrandbits(8) for _ in range(n))
+            b = self.fuzz.randbytes(n)
         if length is not None:
             b = (b + bytes(length))[:length]
         if len(b) < min_len:
@@ -201,6 +203,8 @@ class Ctx:
         return b
 
     def fill(self, value, length):
+        if length > 200000:
+            raise ReplayPrecondition("fill of length %d is too long to build natively" % length)
         return bytes([value]) * length
 
     def int_map(self, name):
@@ -252,7 +256,7 @@ class Ctx:
     def module_global(self, module, name):
         return getattr(_resolve(module), name)
 
-    def model(self, dotted, fn):
+    def lib_model(self, dotted, fn):
         import unittest.mock as um
         parts = dotted.rsplit(".", 1)
         mod = _resolve(parts[0])
@@ -288,6 +292,30 @@ class Ctx:
 
     def concrete(self, v):
         return v
+
+    def ip_text(self, name, ipv6=False):
+        import ipaddress
+        b = self.bytes(name, length=16 if ipv6 else 4)
+        return str(ipaddress.IPv6Address(b) if ipv6 else ipaddress.IPv4Address(b))
+
+    def token_list(self, name, min_len=0):
+        v = self.model.get(name)
+        n = self.int(name + ".len", min_len, None)
+        if self.fuzz is not None:
+            n = min(n, 12)
+        xs = [float(x) for x in (v or [])][:n]
+        while len(xs) < n:
+            xs.append(float(1000 + len(xs)))
+        return xs
+
+    def set(self, obj, name, v):
+        setattr(obj, name, v)
+
+    def appends_only(self, qualname, attr_text):
+        return True
+
+    def known_finding(self, fid):
+        return False        # native replays never exclude a region: the witness must fail
 
     def bytearray_of(self, b):
         return bytearray(b)
